@@ -56,7 +56,8 @@ def ConfigurationFileToJson(filename):
 
     '''Reads dosini format configuration file and returns it as json string'''
 
-    cfg = configparser.ConfigParser()
+    # VV: Values are reported verbatim - a `%` in e.g. the name of a key-output file is not an interpolation directive
+    cfg = configparser.ConfigParser(interpolation=None)
     cfg.read([filename])
     return ConfigurationToJson(cfg)
 
